@@ -116,6 +116,7 @@ func loadEngine(repoDir string, pkgPaths []string) (*Engine, error) {
 	}
 	e.findMutableGlobals()
 	e.inferEffects()
+	e.checkSignatures()
 	return e, nil
 }
 
@@ -882,4 +883,45 @@ func (e *Engine) resolveStructInvs() error {
 		}
 	}
 	return nil
+}
+
+
+// checkSignatures marks contracts whose header no longer matches the function
+// it names (parameter count or names differ): such a contract would bind its
+// clauses to the wrong arguments.
+func (e *Engine) checkSignatures() {
+	all := []*Contract{}
+	for _, k := range e.contractOrder {
+		all = append(all, e.contracts[k])
+	}
+	all = append(all, e.viewList...)
+	for _, c := range all {
+		fn := e.funcs[c.Key]
+		if fn == nil || c.Decl == nil || c.IsIface || fn.Parent() != nil || !e.inRepo(fn) {
+			continue
+		}
+		var names []string
+		for _, f := range c.Decl.Type.Params.List {
+			if len(f.Names) == 0 {
+				names = append(names, "_")
+			}
+			for _, n := range f.Names {
+				names = append(names, n.Name)
+			}
+		}
+		params := fn.Params
+		if fn.Signature.Recv() != nil && len(params) > 0 {
+			params = params[1:]
+		}
+		if len(names) != len(params) {
+			c.Stale = fmt.Sprintf("the contract header has %d parameters, the function has %d", len(names), len(params))
+			continue
+		}
+		for i, p := range params {
+			if names[i] != "_" && p.Name() != "_" && p.Name() != "" && names[i] != p.Name() {
+				c.Stale = fmt.Sprintf("parameter %d is called %s in the contract header and %s in the function", i+1, names[i], p.Name())
+				break
+			}
+		}
+	}
 }
